@@ -145,6 +145,37 @@ def expect1G (m : PMem) (p4 : Word) (va : Nat) : Except OpErr Word :=
     else .error .parentHuge
   | none => if reach2 m p4 va then .error .parentHuge else .error .notMapped
 
+/-! ### A concrete hierarchy for the non-vacuity examples -/
+
+/-- Root at frame `0x1000`; one 4 KiB, two 2 MiB (one with a misaligned address field) and one
+1 GiB mapping. -/
+def demoMem : PMem := fun f i =>
+  if f = 0x1000#64 ∧ i = 0 then 0x2003#64                    -- P4[0] → P3 at 0x2000
+  else if f = 0x2000#64 ∧ i = 0 then 0x3007#64               -- P3[0] → P2 at 0x3000
+  else if f = 0x2000#64 ∧ i = 1 then 0x40000083#64           -- P3[1]: 1 GiB leaf at 0x4000_0000
+  else if f = 0x3000#64 ∧ i = 0 then 0x4003#64               -- P2[0] → P1 at 0x4000
+  else if f = 0x3000#64 ∧ i = 1 then 0x8000000000a00083#64   -- P2[1]: 2 MiB leaf at 0xa0_0000, NX
+  else if f = 0x3000#64 ∧ i = 2 then 0x8000000000c02083#64   -- P2[2]: 2 MiB leaf, address bit 13 set
+  else if f = 0x4000#64 ∧ i = 5 then 0x7005#64               -- P1[5] → frame 0x7000 (bit 12 set)
+  else 0#64
+
+def demoSt : St := { mem := demoMem, allocs := [], log := [.alloc none] }
+
+/-- (`Except` has no `DecidableEq` instance in core; needed to `decide` the examples.) -/
+instance decEqExcept {ε α : Type} [DecidableEq ε] [DecidableEq α] : DecidableEq (Except ε α)
+  | .ok a, .ok b =>
+    if h : a = b then isTrue (by rw [h]) else isFalse (fun h' => h (Except.ok.inj h'))
+  | .error a, .error b =>
+    if h : a = b then isTrue (by rw [h]) else isFalse (fun h' => h (Except.error.inj h'))
+  | .ok _, .error _ => isFalse (fun h => nomatch h)
+  | .error _, .ok _ => isFalse (fun h => nomatch h)
+
+/-- `PathOK` holds on addresses that end in a 4 KiB / 2 MiB / 1 GiB leaf, in a non-present PTE, and
+in a non-present PML4E (upper half). -/
+example : PathOK demoMem 0x1000#64 0x5123 ∧ PathOK demoMem 0x1000#64 0x345678 ∧
+    PathOK demoMem 0x1000#64 0x7fffffff ∧ PathOK demoMem 0x1000#64 0x6000 ∧
+    PathOK demoMem 0x1000#64 0xffff800000000000 := by decide
+
 /-! ### Links to the entry-level forms of `Proofs/Translate.lean` -/
 
 theorem walk_eq (m : PMem) (p4 : Word) (va : Nat) :
@@ -206,6 +237,11 @@ theorem translate_eq (k : Kind) (s : St) (p4 : Word) (va : Nat) (h : PathOK s.me
        { s with log := s.log ++ (pathReads s.mem p4 va).take (walkDepth s.mem p4 va) }) :=
   translate_eq_for k s p4 va (h.toFor k)
 
+example : (translate ⟨true⟩ demoSt 0x1000#64 0x5123).1 = .ok (.mapped 0x7000#64 4096 0x123 0x1005#64) ∧
+    (translate ⟨true⟩ demoSt 0x1000#64 0x5123).2.log =
+      [.alloc none, .rd 0x1000#64 0, .rd 0x2000#64 0, .rd 0x3000#64 0, .rd 0x4000#64 5] ∧
+    walkDepth demoMem 0x1000#64 0x5123 = 4 := by decide
+
 /-- **`translate` agrees with the hardware walk**: not mapped iff the walk fails; otherwise the
 frame start is the walk's physical base, with the walk's page size and offset, and the reported
 flags are `flags()` of the leaf entry (related to the hardware's attribute bits by
@@ -213,6 +249,16 @@ flags are `flags()` of the leaf entry (related to the hardware's attribute bits 
 theorem translate_eq_walk (k : Kind) (s : St) (p4 : Word) (va : Nat) (h : PathOK s.mem p4 va) :
     (translate k s p4 va).1 = render s.mem p4 va := by
   rw [translate_eq k s p4 va h]
+
+example : walk demoMem 0x1000#64 0x5123 =
+    some { base := 0x7000, size := 4096, off := 0x123, flags := 5#64, rw := false, us := false } := by
+  decide
+example : (translate ⟨false⟩ demoSt 0x1000#64 0x345678).1 =
+    .ok (.mapped 0xa00000#64 (2^21) 0x145678 0x8000000000000083#64) := by decide
+example : (translate ⟨false⟩ demoSt 0x1000#64 0x7fffffff).1 =
+    .ok (.mapped 0x40000000#64 (2^30) 0x3fffffff 0x83#64) := by decide
+example : (translate ⟨true⟩ demoSt 0x1000#64 0x6000).1 = .ok .notMapped ∧
+    walkDepth demoMem 0x1000#64 0x6000 = 4 := by decide
 
 /-- It never panics under the hypothesis. -/
 theorem translate_no_panic (k : Kind) (s : St) (p4 : Word) (va : Nat) (h : PathOK s.mem p4 va) :
@@ -233,6 +279,11 @@ theorem walk_leaf_facts (m : PMem) (p4 : Word) (va : Nat) (x : Xlat) (h : walk m
     (x.size = 4096 →
       (Pte.flags (leafEnt m p4 va)).getLsbD 12 = (BitVec.ofNat 64 x.base).getLsbD 12) :=
   walkE_facts _ _ _ _ va x h
+
+/-- 4 KiB leaf `0x7005`: `flags()` is `0x1005` (bit 12 is address bit 12), the hardware's
+attribute word is `5`. -/
+example : Pte.flags (leafEnt demoMem 0x1000#64 0x5123) = 0x1005#64 ∧
+    Pte.flags (leafEnt demoMem 0x1000#64 0x5123) &&& dom 4096 = 5#64 := by decide
 
 /-- The statement of (1) spelled out. -/
 theorem translate_eq_walk_spelled (k : Kind) (s : St) (p4 : Word) (va : Nat)
@@ -255,6 +306,9 @@ theorem translate_eq_walk_spelled (k : Kind) (s : St) (p4 : Word) (va : Nat)
     refine ⟨_, ht, rfl, hfl, h12, ?_, hoff, hsz, hal⟩
     rw [BitVec.toNat_ofNat]; apply Nat.mod_eq_of_lt
     rcases hsz with h' | h' | h' <;> rw [h'] at hb <;> omega
+
+example : (walk demoMem 0x1000#64 0x345678).map (fun x => (x.base, x.size, x.off, x.flags)) =
+    some (0xa00000, 2^21, 0x145678, 0x8000000000000083#64) := by decide
 
 /-! ### 2. `translate_addr` = physical address of the hardware walk -/
 
@@ -285,6 +339,9 @@ theorem translate_addr_eq_walk (k : Kind) (s : St) (p4 : Word) (va : Nat)
       rw [BitVec.toNat_ofNat]; apply Nat.mod_eq_of_lt; omega
     have : x.base + x.off < 2^52 := by omega
     simp only [hbase, this, if_true, Option.map, Xlat.pa]
+
+example : (translateAddr ⟨true⟩ demoSt 0x1000#64 0x345678).1 = .ok (some 0xb45678) ∧
+    (translateAddr ⟨false⟩ demoSt 0x1000#64 0x6000).1 = .ok none := by decide
 
 /-! ### 3. `translate_page` of the three sizes = hardware walk
 
@@ -324,6 +381,11 @@ theorem translate_page_4K_eq (k : Kind) (s : St) (p4 : Word) (va : Nat)
        { s with log := s.log ++ (pathReads s.mem p4 va).take (walkDepth s.mem p4 va) }) :=
   translate_page_4K_eq_for k s p4 va (h.toFor k)
 
+example : (translatePage ⟨true⟩ demoSt 0x1000#64 [0, 0, 0] 5 false 4096).1 = .ok 0x7000#64 ∧
+    expect4K demoMem 0x1000#64 0x5123 = .ok 0x7000#64 ∧
+    expect4K demoMem 0x1000#64 0x345678 = .error .parentHuge ∧
+    expect4K demoMem 0x1000#64 0x6000 = .error .notMapped := by decide
+
 /-- **`translate_page::<Size2MiB>`** returns `expect2M` (no alignment hypothesis: a misaligned
 address field is reported as `InvalidFrameAddress`) and reads the first `≤ 3` entries of the
 hardware walk. Only the entries down to level 2 need to be well-formed. -/
@@ -347,6 +409,13 @@ theorem translate_page_2M_eq (k : Kind) (s : St) (p4 : Word) (va : Nat) (h : OK2
   simp only [← List.take_take]
   rfl
 
+example : OK2 demoMem 0x1000#64 0x200000 ∧ expect2M demoMem 0x1000#64 0x200000 = .ok 0xa00000#64 ∧
+    expect2M demoMem 0x1000#64 0x5123 = .error .parentHuge ∧     -- slot holds a table (4 KiB leaf below)
+    expect2M demoMem 0x1000#64 0x6000 = .error .parentHuge ∧     -- slot holds a table (PTE not present)
+    expect2M demoMem 0x1000#64 0x40000000 = .error .parentHuge ∧ -- a 1 GiB leaf covers the page
+    expect2M demoMem 0x1000#64 0x600000 = .error .notMapped ∧
+    expect2M demoMem 0x1000#64 0x400000 = .error (.invalidFrame 0xc02000#64) := by decide
+
 /-- **`translate_page::<Size1GiB>`** returns `expect1G` and reads the first `≤ 2` entries of the
 hardware walk. Only the P4 and P3 entries need to be well-formed. -/
 theorem translate_page_1G_eq (k : Kind) (s : St) (p4 : Word) (va : Nat) (h : OK3 s.mem p4 va) :
@@ -365,6 +434,11 @@ theorem translate_page_1G_eq (k : Kind) (s : St) (p4 : Word) (va : Nat) (h : OK3
   rw [hE]
   simp only [← List.take_take]
   rfl
+
+example : OK3 demoMem 0x1000#64 0x40000000 ∧
+    expect1G demoMem 0x1000#64 0x40000000 = .ok 0x40000000#64 ∧
+    expect1G demoMem 0x1000#64 0x5123 = .error .parentHuge ∧
+    expect1G demoMem 0x1000#64 0x80000000 = .error .notMapped := by decide
 
 /-! Success of `translate_page` ⇔ the walk ends in a leaf of exactly that size, and then the
 frame is the walk's base. For the huge sizes the "⇐" direction needs the leaf's address field to
@@ -421,6 +495,15 @@ theorem translate_page_2M_ok_iff (k : Kind) (s : St) (p4 : Word) (va : Nat)
       · intro h; cases h
       · rintro ⟨x', hx, hs', _⟩; rw [← hx] at hs'; exact absurd hs' hs
 
+/-- The alignment hypothesis holds for the leaf at `0x200000`; it fails for the one at `0x400000`,
+where `translate_page` reports `InvalidFrameAddress` although the walk finds a 2 MiB leaf. -/
+example : ∀ x, walk demoMem 0x1000#64 0x200000 = some x → x.size = 2^21 →
+    ent2 demoMem 0x1000#64 0x200000 &&& 0x1fe000#64 = 0#64 := fun _ _ _ => by decide
+example : (translatePage ⟨false⟩ demoSt 0x1000#64 [0, 0] 2 true (2^21)).1 =
+      .error (.invalidFrame 0xc02000#64) ∧
+    (walk demoMem 0x1000#64 0x400000).map (fun x => (x.base, x.size)) = some (0xc00000, 2^21) := by
+  decide
+
 theorem translate_page_1G_ok_iff (k : Kind) (s : St) (p4 : Word) (va : Nat)
     (h : OK3 s.mem p4 va)
     (hal : ∀ x, walk s.mem p4 va = some x → x.size = 2^30 → ent3 s.mem p4 va &&& 0x3fffe000#64 = 0#64)
@@ -442,5 +525,157 @@ theorem translate_page_1G_ok_iff (k : Kind) (s : St) (p4 : Word) (va : Nat)
       constructor
       · intro h; cases h
       · rintro ⟨x', hx, hs', _⟩; rw [← hx] at hs'; exact absurd hs' hs
+
+example : ∀ x, walk demoMem 0x1000#64 0x40000000 = some x → x.size = 2^30 →
+    ent3 demoMem 0x1000#64 0x40000000 &&& 0x3fffe000#64 = 0#64 := fun _ _ _ => by decide
+
+/-! ### 4. The translation functions are read-only
+
+These hold for every state, without `PathOK`. Under `PathOK` the theorems above give the exact
+log: `translate`, `translate_addr` and `translate_page::<Size4KiB>` append the first
+`walkDepth` elements of `pathReads`, i.e. exactly the reads of the hardware walk (the huge sizes
+stop after at most 3 resp. 2), and `pathReads_tables` says these are reads of `p4` and of the
+tables referenced by present PS = 0 entries on the path. -/
+
+/-- `translate` leaves memory and allocator alone and appends between one and four reads: a
+prefix of the reads of a full walk along the address fields of the entries of `va`. -/
+theorem translate_frame (k : Kind) (s : St) (p4 : Word) (va : Nat) :
+    ∃ n, 1 ≤ n ∧ n ≤ 4 ∧
+      (translate k s p4 va).2 = { s with log := s.log ++ (pathReads s.mem p4 va).take n } := by
+  rw [translate_eq_E]
+  exact ⟨_, (translateE_count k _ _ _ _ va).1, (translateE_count k _ _ _ _ va).2, rfl⟩
+
+theorem translate_mem (k : Kind) (s : St) (p4 : Word) (va : Nat) :
+    (translate k s p4 va).2.mem = s.mem := by
+  obtain ⟨n, _, _, h⟩ := translate_frame k s p4 va; rw [h]
+
+theorem translate_allocs (k : Kind) (s : St) (p4 : Word) (va : Nat) :
+    (translate k s p4 va).2.allocs = s.allocs := by
+  obtain ⟨n, _, _, h⟩ := translate_frame k s p4 va; rw [h]
+
+theorem translate_addr_frame (k : Kind) (s : St) (p4 : Word) (va : Nat) :
+    ∃ n, 1 ≤ n ∧ n ≤ 4 ∧
+      (translateAddr k s p4 va).2 = { s with log := s.log ++ (pathReads s.mem p4 va).take n } := by
+  rw [translateAddr_state]; exact translate_frame k s p4 va
+
+theorem translate_addr_mem (k : Kind) (s : St) (p4 : Word) (va : Nat) :
+    (translateAddr k s p4 va).2.mem = s.mem := by
+  rw [translateAddr_state]; exact translate_mem k s p4 va
+
+/-- `translate_page` (any parent-index list, any size): memory and allocator untouched; the log
+grows by a prefix of the reads along the page's path (`readsOf`: the table at each step is the
+address field of the entry read before) followed by the read of the slot. -/
+theorem translate_page_frame (k : Kind) (s : St) (p4 : Word) (ps : List Nat) (li : Nat)
+    (huge : Bool) (sz : Nat) :
+    ∃ n, (translatePage k s p4 ps li huge sz).2 =
+      { s with log := s.log ++
+          (readsOf s.mem p4 ps ++ [Ev.rd (lastTbl s.mem p4 ps) li]).take n } := by
+  rw [translatePage_eq_E]; exact ⟨_, rfl⟩
+
+theorem translate_page_mem (k : Kind) (s : St) (p4 : Word) (ps : List Nat) (li : Nat)
+    (huge : Bool) (sz : Nat) : (translatePage k s p4 ps li huge sz).2.mem = s.mem := by
+  obtain ⟨n, h⟩ := translate_page_frame k s p4 ps li huge sz; rw [h]
+
+theorem translate_page_allocs (k : Kind) (s : St) (p4 : Word) (ps : List Nat) (li : Nat)
+    (huge : Bool) (sz : Nat) : (translatePage k s p4 ps li huge sz).2.allocs = s.allocs := by
+  obtain ⟨n, h⟩ := translate_page_frame k s p4 ps li huge sz; rw [h]
+
+/-- The reads of the hardware walk are reads of in-range slots of `p4` and of the tables on the
+path (frames referenced by present, PS = 0 entries). -/
+theorem pathReads_tables (m : PMem) (p4 : Word) (va : Nat) :
+    ∀ ev ∈ (pathReads m p4 va).take (walkDepth m p4 va),
+      ∃ f i, ev = Ev.rd f i ∧ f ∈ pathTables m p4 va ∧ i < 512 := by
+  have i4 : vaIdx4 va < 512 := Nat.mod_lt _ (by decide)
+  have i3 : vaIdx3 va < 512 := Nat.mod_lt _ (by decide)
+  have i2 : vaIdx2 va < 512 := Nat.mod_lt _ (by decide)
+  have i1 : vaIdx1 va < 512 := Nat.mod_lt _ (by decide)
+  intro ev hev
+  by_cases r3 : reach3 m p4 va = true
+  · by_cases r2 : reach2 m p4 va = true
+    · by_cases r1 : reach1 m p4 va = true
+      · simp [walkDepth, pathReads, r1] at hev
+        rcases hev with rfl | rfl | rfl | rfl
+        · exact ⟨_, _, rfl, by simp [pathTables], i4⟩
+        · exact ⟨_, _, rfl, by simp [pathTables, r3], i3⟩
+        · exact ⟨_, _, rfl, by simp [pathTables, r2], i2⟩
+        · exact ⟨_, _, rfl, by simp [pathTables, r1], i1⟩
+      · simp [walkDepth, pathReads, r1, r2] at hev
+        rcases hev with rfl | rfl | rfl
+        · exact ⟨_, _, rfl, by simp [pathTables], i4⟩
+        · exact ⟨_, _, rfl, by simp [pathTables, r3], i3⟩
+        · exact ⟨_, _, rfl, by simp [pathTables, r2], i2⟩
+    · have r1 : ¬ reach1 m p4 va = true := fun h => r2 ((reach1_iff ..).1 h).1
+      simp [walkDepth, pathReads, r1, r2, r3] at hev
+      rcases hev with rfl | rfl
+      · exact ⟨_, _, rfl, by simp [pathTables], i4⟩
+      · exact ⟨_, _, rfl, by simp [pathTables, r3], i3⟩
+  · have r2 : ¬ reach2 m p4 va = true := fun h => r3 ((reach2_iff ..).1 h).1
+    have r1 : ¬ reach1 m p4 va = true := fun h => r2 ((reach1_iff ..).1 h).1
+    simp [walkDepth, pathReads, r1, r2, r3] at hev
+    subst hev
+    exact ⟨_, _, rfl, by simp [pathTables], i4⟩
+
+/-- Under `PathOK`, `translate` reads only in-range slots of `p4` and of table frames on the path. -/
+theorem translate_reads_tables (k : Kind) (s : St) (p4 : Word) (va : Nat)
+    (h : PathOK s.mem p4 va) :
+    ∃ l, (translate k s p4 va).2 = { s with log := s.log ++ l } ∧
+      ∀ ev ∈ l, ∃ f i, ev = Ev.rd f i ∧ f ∈ pathTables s.mem p4 va ∧ i < 512 := by
+  rw [translate_eq k s p4 va h]
+  exact ⟨_, rfl, pathReads_tables s.mem p4 va⟩
+
+example : pathTables demoMem 0x1000#64 0x5123 = [0x1000#64, 0x2000#64, 0x3000#64, 0x4000#64] ∧
+    pathTables demoMem 0x1000#64 0x7fffffff = [0x1000#64, 0x2000#64] := by decide
+
+/-! ### Each clause of the hypothesis is necessary
+
+Concrete memories on which one clause of `PathOK` fails and `translate` (or `translate_page`)
+differs from the hardware walk. -/
+
+/-- PS set in the (present) P4 entry: the walk finds nothing, `translate` panics ("level 4 entry
+has huge page bit set") for both kinds. -/
+def badP4 : PMem := fun f i => if f = 0x1000#64 ∧ i = 0 then 0x2083#64 else 0#64
+example : ¬ PathOK badP4 0x1000#64 0 ∧ walk badP4 0x1000#64 0 = none ∧
+    (∀ r, (translate ⟨r⟩ ⟨badP4, [], []⟩ 0x1000#64 0).1 = .panic) := by decide
+
+/-- A non-present P3 entry with PS set (`0x4000_0080`): no translation in hardware, but both
+`next_table` variants report a huge page (neither tests `PRESENT` before `HUGE_PAGE`). -/
+def badP3 : PMem := fun f i =>
+  if f = 0x1000#64 ∧ i = 0 then 0x2003#64 else if f = 0x2000#64 ∧ i = 0 then 0x40000080#64 else 0#64
+example : ¬ PathOK badP3 0x1000#64 0 ∧ walk badP3 0x1000#64 0 = none ∧
+    (∀ r, (translate ⟨r⟩ ⟨badP3, [], []⟩ 0x1000#64 0).1 =
+      .ok (.mapped 0x40000000#64 (2^30) 0 0x80#64)) := by decide
+
+/-- A non-zero, non-present P4 entry without PS (`0x2002`): the non-recursive mappers agree with
+the hardware (`PathOKFor ⟨false⟩` holds), the recursive one follows the entry (it only tests
+`is_unused()`), so it needs "non-zero ⇒ present" at the upper levels too. -/
+def badRec : PMem := fun f i =>
+  if f = 0x1000#64 ∧ i = 0 then 0x2002#64 else if f = 0x2000#64 ∧ i = 0 then 0x40000083#64 else 0#64
+example : ¬ PathOK badRec 0x1000#64 0 ∧ walk badRec 0x1000#64 0 = none ∧
+    (translate ⟨false⟩ ⟨badRec, [], []⟩ 0x1000#64 0).1 = .ok .notMapped ∧
+    (translate ⟨true⟩ ⟨badRec, [], []⟩ 0x1000#64 0).1 =
+      .ok (.mapped 0x40000000#64 (2^30) 0 0x83#64) := by decide
+example : PathOKFor ⟨false⟩ badRec 0x1000#64 0 := by
+  unfold PathOKFor NtOK EntOK; decide
+
+/-- A non-zero, non-present P1 entry (`0x7002`): `translate` and `translate_page` of both kinds
+only test `is_unused()` at level 1 and report a mapping the hardware does not have. -/
+def badP1 : PMem := fun f i =>
+  if f = 0x1000#64 ∧ i = 0 then 0x2003#64 else if f = 0x2000#64 ∧ i = 0 then 0x3003#64
+  else if f = 0x3000#64 ∧ i = 0 then 0x4003#64 else if f = 0x4000#64 ∧ i = 0 then 0x7002#64
+  else 0#64
+example : ¬ PathOK badP1 0x1000#64 0 ∧ walk badP1 0x1000#64 0 = none ∧
+    (∀ r, (translate ⟨r⟩ ⟨badP1, [], []⟩ 0x1000#64 0).1 =
+      .ok (.mapped 0x7000#64 4096 0 0x1002#64)) ∧
+    (∀ r, (translatePage ⟨r⟩ ⟨badP1, [], []⟩ 0x1000#64 [0, 0, 0] 0 false 4096).1 =
+      .ok 0x7000#64) := by decide
+
+/-- A non-zero, non-present P2 slot without PS (`0x2`): `translate_page::<Size2MiB>` answers
+`ParentEntryHugePage` where the walk just finds a non-present entry (`expect2M` = `PageNotMapped`). -/
+def badP2 : PMem := fun f i =>
+  if f = 0x1000#64 ∧ i = 0 then 0x2003#64 else if f = 0x2000#64 ∧ i = 0 then 0x3003#64
+  else if f = 0x3000#64 ∧ i = 0 then 0x2#64 else 0#64
+example : ¬ OK2 badP2 0x1000#64 0 ∧ expect2M badP2 0x1000#64 0 = .error .notMapped ∧
+    (∀ r, (translatePage ⟨r⟩ ⟨badP2, [], []⟩ 0x1000#64 [0, 0] 0 true (2^21)).1 =
+      .error .parentHuge) := by decide
 
 end X86.C01
